@@ -87,7 +87,7 @@ def gen_search(tier, seed):
     return [B.rand_case(rnd, prof) for _ in range(6000)] + B.word_cases(ALPHA, 5)[:20000]
 
 RULE = ('cases = (timeout T, list of external events) run against the real aiuti.asyncio.BufferAsyncCalls under the virtual-time '
-        'loop (events as for C03) with wait(cancel=True/False) at any quiescent point, several concurrent waiters, submit+wait in one '
+        'loop (events as for C03, incl. the three ways of handing over the function and the two failure flavours of FnFail) with wait(cancel=True/False) at any quiescent point, several concurrent waiters, submit+wait in one '
         'task step from the loop thread (buffer(x); await wait()) and from a foreign thread (second half of _put immediately followed '
         'by wait_from_anywhere() in that thread\'s own loop), and Shutdown = asyncio.runners._cancel_all_tasks semantics (cancel every '
         'task in creation order, then advance 3 timeouts: a daemon that lives on or tasks that never finish are the observation Hang).  '
